@@ -91,6 +91,11 @@ inductive LeafKind where
   | set
   /-- `db sym` – a reference to a symbol (defined in front of the construct with value `m`) -/
   | use
+  /-- `#define sym …` – a preprocessor line that establishes the text replacement number `sym`
+  (manual, "Conditional Assembly": a line that is not assembled has no effect at all – also a `#` line) -/
+  | ppDefine
+  /-- `#undef sym` – a preprocessor line that removes the text replacement number `sym` -/
+  | ppUndef
 deriving DecidableEq, Repr
 
 /-- an ordinary source line: `marker` identifies it, `sym` is the number of the symbol it is about -/
@@ -108,7 +113,7 @@ def Leaf.defines (l : Leaf) : List Nat :=
   match l.kind with
   | .instr | .pseudo | .macro | .macroIntGlobal | .equ | .set => [l.sym]
   | .struct => [l.sym, elemSym l.sym]
-  | .plain | .macroInt | .macroIntLocal | .use => []
+  | .plain | .macroInt | .macroIntLocal | .use | .ppDefine | .ppUndef => []
 
 /-- the symbols an assembled leaf references -/
 def Leaf.uses (l : Leaf) : List Nat :=
@@ -116,11 +121,18 @@ def Leaf.uses (l : Leaf) : List Nat :=
   | .use => [l.sym]
   | _ => []
 
+/-- the effects other than code, symbol definitions and references an assembled leaf has: the text
+replacement it establishes (`#define`) resp. removes (`#undef`) -/
+def Leaf.effects (l : Leaf) : List Nat :=
+  match l.kind with
+  | .ppDefine | .ppUndef => [l.sym]
+  | _ => []
+
 /-- the code bytes an assembled leaf emits -/
 def Leaf.code (l : Leaf) : List Nat :=
   match l.kind with
   | .instr => [254, l.marker]
-  | .struct | .equ | .set => []
+  | .struct | .equ | .set | .ppDefine | .ppUndef => []
   | _ => [l.marker]
 
 /-- one source line, as far as conditional assembly is concerned.  `argc` is the number of arguments
@@ -209,6 +221,10 @@ def definedBy (ls : List Leaf) : List Nat := ls.flatMap Leaf.defines
 
 /-- the symbols referenced ("used") are those the selected leaves reference -/
 def usedBy (ls : List Leaf) : List Nat := ls.flatMap Leaf.uses
+
+/-- **a line that is not assembled has no effect at all**: the text replacements established / removed are those of
+the selected `#define` / `#undef` leaves -/
+def effectsOf (ls : List Leaf) : List Nat := ls.flatMap Leaf.effects
 
 /- the documented "none of the CASE conditions was true" warnings: one per *assembled* SWITCH
 without ELSECASE whose comparisons all fail -/
